@@ -194,6 +194,9 @@ def s3_receive(F, R, roles, h12, h10):
                         bad = 'legacy=%d used length %d shorter than the header: returns %s' % (legacy, L, ev)
                         break
                 else:
+                    if ev != 'Ok':
+                        bad = 'legacy=%d used length %d (header %d + %d frame bytes): returns %s, expected (%d, %d)' % (legacy, L, hs, L - hs, ev, hs, L - hs)
+                        break
                     tup = hit[0].ret[2][0]
                     try:
                         got = (fo.ev(tup[2][0]), fo.ev(tup[2][1]))
